@@ -352,3 +352,20 @@ CONTRACTS["model:Characteristic.update"] = dict(
         ("C07.characteristic_is_sum_over_denominator", "implies(self.denominator is not None, self._vals[ti] * self.denominator.vals[ti] == sum(c.vals[ti] for c in self.includes))"),
     ],
     frame_props=["C07"], defined_props=["C07"])
+
+
+# ------------------------------------------------------------------------------------------------ initial flush (C04, C10)
+# An empty junction flushes nothing: no compartment (in particular no elapsed-time row of a timed compartment) is touched.
+# This is the clause a restart relies on (C10): after apply(from_result(...)) every junction holds 0, so the start-up sequence
+# update_pars -> flush_junctions -> update_pars -> update_links leaves all stocks exactly as saved.
+for _cls in ("JunctionCompartment", "ResidualJunctionCompartment"):
+    CONTRACTS["model:%s.initial_flush#empty" % _cls] = dict(
+        schema=schema,
+        params={},
+        requires=["len(self.vals) >= 1", "self.vals[0] == 0",
+                  "all(implies(l.parameter is not None, len(l.parameter.vals) >= 1 and l.parameter.vals[0] >= 0) for l in self.outlinks)",
+                  "all(implies(not isinstance(l.dest, TimedCompartment), len(l.dest.vals) >= 1) for l in self.outlinks)",
+                  "all(implies(isinstance(l.dest, TimedCompartment), l.dest._vals.shape[0] >= 1 and l.dest._vals.shape[1] >= 1) for l in self.outlinks)"],
+        modifies=[],
+        ensures=[("C04+C10.empty_junction_stays_empty", "self.vals[0] == 0")],
+        frame_props=["C04", "C10"], defined_props=["C04"])
